@@ -148,6 +148,18 @@ def run(mod, tier, seed, replay=None):
         for k in (off_extra or {}).get("distinct", []):
             distinct.add(str(k))
 
+    # monitors of *other* properties that are bound in situ (e.g. the symmetry monitors inside the C04 workload) are
+    # advisory here: their family preconditions (conditioning filters) are not established by this workload
+    foreign = {}
+    own = []
+    for idx, v in violations:
+        k = str(v.get("key", ""))
+        if k.startswith(prop + "|"):
+            own.append((idx, v))
+        else:
+            foreign[k] = foreign.get(k, 0) + 1
+    violations = own
+
     known = load_known(prop)
     unlisted, listed_seen = [], {}
     for idx, v in violations:
@@ -194,6 +206,7 @@ def run(mod, tier, seed, replay=None):
             "inconclusive": {"timeouts": n_timeout, "skipped_after_budget": n_skipped, "harness_errors": n_harness},
             "crashes": n_crash,
             "known_findings_reobserved": listed_seen,
+            "advisory_events_of_other_properties_monitors": foreign,
             "unlisted_violations": len(unlisted),
             "verdict": "violated" if unlisted else ("inconclusive" if reasons else "held"),
             "inconclusive_reasons": reasons,
@@ -217,6 +230,8 @@ def run(mod, tier, seed, replay=None):
         if isinstance(m, dict) and "judged" in m:
             print("  monitor %-34s calls=%-8d judged=%-8d out_of_domain=%-7d violations=%d"
                   % (mname, m.get("calls", 0), m.get("judged", 0), m.get("ood", 0), m.get("viol", 0)))
+    if foreign:
+        print("  note: in-situ monitors of other properties recorded (advisory, outside their own input family): %s" % foreign)
     for f in known:
         print("KNOWN-FINDING: property=%s %s [%s; re-observed %d time(s) in this run]"
               % (prop, f["what"], f["key"], listed_seen.get(f["key"], 0)))
